@@ -27,7 +27,7 @@ def gen_bit_cases(ctx, n):
     return cases
 
 
-def bits_stream(ctx, v2, n):
+def bits_stream(ctx, v2, n, shard=0):
     rows_pack, rows_unpack = [], []
     for bits in sorted(gen_bit_cases(ctx, n), key=len):    # shortest first: the first failing case reported is minimal
         k = len(bits)
@@ -62,7 +62,7 @@ def bits_stream(ctx, v2, n):
     text += 'Definition up : list (list Z * nat * list bool) := [\n' + ';\n'.join(
         f'({ZL(d)}, {r}%nat, {BL(g)})' for d, r, g in rows_unpack) + '].\n'
     text += 'Eval vm_compute in failing (fun c => match c with (d, r, g) => bl_eqb (unpack_bits d r) g end) up.\n'
-    vals = coq.parse_evals(coq.coq_eval(f'c16_bits_{ctx.seed}', text))
+    vals = coq.parse_evals(coq.coq_eval(f'c16_bits_{ctx.seed}_{shard}', text))
     assert len(vals) == 2, vals
     for name, rows, val in zip(['pack_bits', 'unpack_bits'], [rows_pack, rows_unpack], vals):
         for idx in coq.parse_nat_list(val):
@@ -94,7 +94,7 @@ def gen_results_case(ctx, cirq, v2):
     return ms, sweeps
 
 
-def results_stream(ctx, cirq, v2, n):
+def results_stream(ctx, cirq, v2, n, shard=0):
     rng = ctx.rng
     rows_enc, rows_dec = [], []
     kid = {}
@@ -157,9 +157,11 @@ def results_stream(ctx, cirq, v2, n):
         rp = dict(kind='results', mode=mode, measurements=[dict(key=m.key, qubits=[(q.row, q.col) for q in m.qubits], instances=m.instances) for m in ms],
                   sweeps=[[dict(params={str(k): float(v) for k, v in t.params.param_dict.items()}, records={k: np.asarray(a).astype(int).tolist() for k, a in t.records.items()},
                                 shapes={k: list(np.asarray(a).shape) for k, a in t.records.items()}) for t in sw] for sw in sweeps])
-        if (msg is None) != (mode != 'ok'):
+        # a wrong instance count goes unnoticed by numpy's reshape when there is nothing to reshape (0 repetitions everywhere)
+        vacuous = mode == 'bad_instances' and all(r == 0 for r in reps_list)
+        if (msg is None) != (mode != 'ok') and not vacuous:
             ctx.violation('results:to_proto-defined', f'results_to_proto {"raised" if msg is None else "accepted"} in mode {mode}: {desc}', rp)
-        if msg is None:
+        if msg is None or vacuous:
             continue
         # ---- decoding: same measurements, no measurements, permuted qubit order, malformed messages
         dmode = rng.choice(['same', 'same', 'none', 'permuted', 'permuted', 'dup_qubit', 'missing_measure'])
@@ -213,7 +215,7 @@ def results_stream(ctx, cirq, v2, n):
     text += 'Definition c_dec : list (option (list minfo) * list sweepres * option (list (list (list (Z * recd))))) := [\n' + ';\n'.join(
         f'({m}, {msg}, {coq.opt(out)})' for m, msg, out in rows_dec) + '].\n'
     text += 'Eval vm_compute in failing (fun c => match c with (m, msg, out) => opt_eqb out_eqb (results_from_proto m msg) out end) c_dec.\n'
-    vals = coq.parse_evals(coq.coq_eval(f'c16_results_{ctx.seed}', text))
+    vals = coq.parse_evals(coq.coq_eval(f'c16_results_{ctx.seed}_{shard}', text))
     assert len(vals) == 2, vals
     for name, rows, val in zip(['results_to_proto', 'results_from_proto'], [rows_enc, rows_dec], vals):
         for idx in coq.parse_nat_list(val):
@@ -688,6 +690,35 @@ def explain_failure(ctx, cirq, S, norm, c, why, got=None):
                                   f'two moments with equal operations and tags {m1.tags!r} / {m2.tags!r} come back with tags {[m.tags for m in d2.moments]!r}: {circuit_literal(cc)}'[:1500],
                                   dict(kind='circuit', literal=circuit_literal(cc)))
                     return
+    # moments whose operations are pairwise equal but which Moment.__eq__ tells apart: an operation on interchangeable
+    # qubits was replaced by the equal operation interned earlier, with the qubits in the other order
+    def same_ops(m1, m2):
+        rest = list(m2.operations)
+        for o in m1.operations:
+            hit = next((x for x in rest if x == o), None)
+            if hit is None:
+                return False
+            rest.remove(hit)
+        return not rest
+    if got is not None and len(got.moments) == len(c.moments):
+        a_, b_ = norm(c), norm(got)
+        for i, (m1, m2) in enumerate(zip(a_.moments, b_.moments)):
+            if m1 != m2 and same_ops(m1, m2) and tuple(m1.tags) == tuple(m2.tags):
+                for o in c.moments[i].operations:
+                    twin = next((x for x in got.moments[i].operations if x == o and x.qubits != o.qubits), None)
+                    if twin is None:
+                        continue
+                    other = next((x for x in c.moments[i].operations if x is not o), None)
+                    cc = cirq.Circuit([cirq.Moment([o.with_qubits(*twin.qubits)]), cirq.Moment([o] + ([other] if other is not None else []))])
+                    try:
+                        ok3, d3 = roundtrip_ok(cirq, S, norm, cc)
+                    except Exception:
+                        continue
+                    if not ok3:
+                        ctx.violation('circuit:symmetric-gate-qubit-order',
+                                      f'{o!r} is interned with the equal operation {twin!r}; the moment that comes back is not == the original although its operations are pairwise equal: {circuit_literal(cc)}'[:1500],
+                                      dict(kind='circuit', literal=circuit_literal(cc)))
+                        return
     ctx.violation('circuit:roundtrip', f'{why}; c = {circuit_literal(c)}; got {None if got is None else circuit_literal(got)}'[:4000],
                   dict(kind='circuit', literal=circuit_literal(c)))
 
@@ -706,6 +737,7 @@ def special_circuits(cirq, cg):
         cirq.Circuit(cirq.FSimGate(0.1, 0.2).on(q0, q1).with_tags('a', FSimViaModelTag())),
         cirq.Circuit(cirq.measure(q0, key='m', confusion_map={(0,): np.array([[0.9, 0.1], [0.2, 0.8]])})),
         cirq.Circuit(cirq.depolarize(0.0).on(q0)),
+        cirq.Circuit(cirq.Moment([cirq.CZ(q0, cirq.GridQubit(1, 0))]), cirq.Moment([cirq.CZ(cirq.GridQubit(1, 0), q0), cirq.X(cirq.GridQubit(0, 5))])),
         cirq.Circuit(cirq.measure(q0, key='m'), cirq.X(q1).with_classical_controls(sympy.Symbol('m'))),
         # equal operations written differently must share a constant and still come back equal
         cirq.Circuit(cirq.CZ(q0, q1), cirq.CZ(q1, q0), cirq.X(q0) ** 3, cirq.X(q0), cirq.X(q0) ** 1.0, cirq.X(q1).with_tags(1), cirq.X(q1).with_tags(True)),
@@ -943,19 +975,22 @@ def sweeps_stream(ctx, cirq, cg, v2, n):
             ctx.count('run_context', [kind, repr(sweepable), repr(reps), compress, f64], isinstance(reps, list) and len(reps) > 1,
                       sample=dict(sweepable=repr(sweepable)[:300], repetitions=reps, compressed=compress, decoded_repetitions=got_reps))
             if not ok:
-                # is it the run context, or one of its sweeps on its own?
+                # is it the run context, or one of its sweeps on its own (a known sweep-level finding)?
                 sig = 'run_context:roundtrip'
+                noidx = lambda dsc: str(dsc).replace("'], 0, ", "'], None, ")
                 if got_reps == exp_reps and got_sw is not None and len(got_sw) == len(sl):
-                    alone = [v2.sweep_from_proto(v2.sweep_to_proto(e, use_float64=f64)) for e in sl]
-                    if [sweep_values(g) for g in got_sw] == [sweep_values(a) for a in alone]:
-                        for e, a in zip(sl, alone):
-                            if sweep_values(a) != sweep_values(round_sweep(cirq, e, f64)):
-                                if isinstance(e, cirq.ListSweep) and len({tuple(sorted(map(str, pr.param_dict))) for pr in e}) > 1:
-                                    sig = 'sweep:listsweep-heterogeneous'
-                                elif 'FiniteRandomVariable' in repr(e):
-                                    sig = 'sweep:finite-random-variable-order'
-                                else:
-                                    sig = 'sweep:values'
+                    sigs = set()
+                    for e, g in zip(sl, got_sw):
+                        if sweep_values(g) == sweep_values(round_sweep(cirq, e, f64)):
+                            continue
+                        if isinstance(e, cirq.ListSweep):
+                            sigs.add('sweep:listsweep-heterogeneous' if len({tuple(sorted(map(str, pr.param_dict))) for pr in e}) > 1 else 'run_context:roundtrip')
+                        elif 'FiniteRandomVariable' in repr(e) and noidx(sweep_desc(cirq, g, True)) == noidx(sweep_desc(cirq, e, f64)):
+                            sigs.add('sweep:finite-random-variable-order')
+                        else:
+                            sigs.add('run_context:roundtrip')
+                    if len(sigs) == 1:
+                        sig = sigs.pop()
                 ctx.violation(sig, f'run_context_to_proto({sweepable!r}, {reps}) decodes to repetitions {got_reps} and sweeps {got_sw!r}', dict(rp, sweepable=repr(sweepable), repetitions=reps))
 
 
@@ -1001,8 +1036,14 @@ def multi_stream(ctx, cirq, cg, n):
             allm = [m for c in cs for m in c.moments]
             for i_, m1 in enumerate(allm):
                 shared_tags = shared_tags or any(m1 == m2 and tuple(m1.tags) != tuple(m2.tags) for m2 in allm[i_ + 1:])
-            ctx.violation('circuit:moment-tags-shared' if shared_tags else 'multi:roundtrip', f'{form} form: deserialize_multi_program(serialize(...)) differs from the circuits',
-                          dict(kind='multi', form=form, literals=[circuit_literal(c) for c in cs]))
+            single = [roundtrip_ok(cirq, S, norm, c) for c in cs]
+            if not shared_tags and any(not okc for okc, _ in single):
+                for c, (okc, dc) in zip(cs, single):       # a circuit that already fails on its own: explain it there
+                    if not okc:
+                        explain_failure(ctx, cirq, S, norm, c, 'deserialize(serialize(c)) differs from c', dc)
+            else:
+                ctx.violation('circuit:moment-tags-shared' if shared_tags else 'multi:roundtrip', f'{form} form: deserialize_multi_program(serialize(...)) differs from the circuits',
+                              dict(kind='multi', form=form, literals=[circuit_literal(c) for c in cs]))
 
 
 # ------------------------------------------------------------------ device specifications
@@ -1155,8 +1196,10 @@ def run(ctx):
 
 
 def streams(ctx, cirq, cg, v2, q):
-    bits_stream(ctx, v2, 300 if q else 3000)
-    results_stream(ctx, cirq, v2, 120 if q else 1200)
+    for shard in range(1 if q else 10):          # cases files stay below ~500 cases each
+        bits_stream(ctx, v2, 300, shard)
+    for shard in range(1 if q else 10):
+        results_stream(ctx, cirq, v2, 120, shard)
     nc = 150 if q else 1500
     for shard in range(0, nc, 150):
         circuits_stream(ctx, cirq, cg, min(150, nc - shard), shard)
